@@ -1,9 +1,12 @@
 package soyhtml
 
 import (
+	"bytes"
 	"unicode/utf8"
 
+	"github.com/robfig/soy/ast"
 	"github.com/robfig/soy/data"
+	"github.com/robfig/soy/soymsg"
 )
 
 var c03EscapeTofu *Tofu
@@ -70,6 +73,8 @@ var c03Ctx = []string{
 	// 7, 8: one namespace spread over two files whose declarations differ (caller's file first / last)
 	"{namespace b autoescape=\"false\"}\n/** @param x */\n{template .t}\n{call .u data=\"all\"/}\n{/template}\n",
 	"{namespace b autoescape=\"true\"}\n/** @param x */\n{template .t}\n{call .u data=\"all\"/}\n{/template}\n",
+	// 9: in a message rendered through a translating (identity) catalogue, after a raw print of the same value
+	"{namespace a%NS}\n/** @param x */\n{template .t%TM}\n{msg desc=\"d\"}m{$x|noAutoescape}-%Pm{/msg}\n{/template}\n",
 }
 
 const c03Callee = "{namespace b%NS}\n/** @param x */\n{template .u%TM}\n%P\n{/template}\n"
@@ -99,6 +104,33 @@ func c03Subst(s, ns, tm, p string) string {
 	return string(out)
 }
 
+// c03Identity: a catalogue that translates every message of the bundle into itself (parts taken
+// from the message's own placeholder string).
+type c03Catalogue struct{ msgs map[uint64]*soymsg.Message }
+
+func (b c03Catalogue) Locale() string                    { return "xx" }
+func (b c03Catalogue) Message(id uint64) *soymsg.Message { return b.msgs[id] }
+func (b c03Catalogue) PluralCase(n int) int              { return 0 }
+
+func c03Identity(t *Tofu) soymsg.Bundle {
+	b := c03Catalogue{map[uint64]*soymsg.Message{}}
+	var walk func(n ast.Node)
+	walk = func(n ast.Node) {
+		if m, ok := n.(*ast.MsgNode); ok {
+			b.msgs[m.ID] = soymsg.NewMessage(m.ID, soymsg.PlaceholderString(m))
+		}
+		if p, ok := n.(ast.ParentNode); ok {
+			for _, c := range p.Children() {
+				walk(c)
+			}
+		}
+	}
+	for _, tp := range t.registry.Templates {
+		walk(tp.Node)
+	}
+	return b
+}
+
 // H_decision: the escape decision of evalPrint. ns/tm select the namespace-level and
 // template-level autoescape attribute, dir the directive chain, ctx the syntactic context;
 // $x is a symbolic string of 2 bytes (all byte values except NUL).
@@ -107,10 +139,12 @@ func H_decision(ns, tm, dir, ctx int) {
 	p := "{$x" + d.text + "}"
 	var tofu *Tofu
 	entry := "a.t"
-	if ctx >= 7 {
+	if ctx == 7 || ctx == 8 {
 		entry = "b.t"
 	}
-	if ctx == 8 {
+	if ctx == 9 {
+		tofu = verifMustCompile(c03Subst(c03Ctx[ctx], c03Modes[ns], c03Modes[tm], p))
+	} else if ctx == 8 {
 		// the callee's file is added first
 		tofu = verifMustCompile(c03Subst(c03Callee, c03Modes[ns], c03Modes[tm], p), c03Ctx[ctx])
 	} else if ctx >= 4 {
@@ -122,9 +156,25 @@ func H_decision(ns, tm, dir, ctx int) {
 	}
 	x := verifString(2)
 	verifAssume(x[0] != 0 && x[1] != 0)
-	out, err := verifRender(tofu, entry, data.Map{"x": data.String(x)})
+	var out string
+	var err error
+	if ctx == 9 {
+		var buf bytes.Buffer
+		err = tofu.NewRenderer(entry).WithMessages(c03Identity(tofu)).Execute(&buf, data.Map{"x": data.String(x)})
+		out = buf.String()
+		// the raw print of the value comes first
+		verifAssert(err != nil || (len(out) >= 4 && out[0] == 'm' && out[1:3] == x && out[3] == '-'), "raw print inside a translated message does not write the value itself")
+		if err == nil {
+			out = "m" + out[4:]
+		}
+	} else {
+		out, err = verifRender(tofu, entry, data.Map{"x": data.String(x)})
+	}
 	verifObserve("x", x)
 	verifObserve("out", out)
+	if err != nil {
+		verifObserve("err", err.Error())
+	}
 	verifAssert(err == nil, "render failed")
 	// effective mode: template attribute, else namespace attribute, else on
 	eff := c03Modes[tm]
@@ -132,7 +182,7 @@ func H_decision(ns, tm, dir, ctx int) {
 		eff = c03Modes[ns]
 	}
 	off := eff == ` autoescape="false"`
-	if ctx == 3 {
+	if ctx == 3 || ctx == 9 {
 		verifAssert(len(out) >= 2 && out[0] == 'm' && out[len(out)-1] == 'm', "message text lost")
 		out = out[1 : len(out)-1]
 	}
